@@ -38,17 +38,39 @@ class ErrObj:
         return int(self.obj.evaluate(self.y))
 
 
-def _rr4_cfg(rounds: int, c: dict) -> str:
+def _rr4_cfg(rounds: int, c: dict, fixed: bool = False) -> str:
     return ("SPECIFICATION SpecRR\nCONSTANTS N = 4\n Rounds = %d\n HMin = %d\n HMax = %d\n AMin = %d\n"
             " AMax = %d\n SMin = %d\n SMax = %d\nINVARIANT OracleVsDoc\nINVARIANT FeasibleImpliesZero\n"
             "INVARIANT EmitFeasible\n" % (rounds, c["hmin"], c["hmax"], c["amin"], c["amax"], c["smin"],
-                                          c["smax"]))
+                                          c["smax"])) + ("CONSTRAINT FirstDayFixed\n" if fixed else "")
 
 
-def rr4_feasible_set(rep: Report, rounds: int, c: dict) -> set:
-    res = tlc.run("ttp/MC_RR", cfg_text=_rr4_cfg(rounds, c), workers=16, timeout=6000, heap="12g")
-    rep.add_mc(f"MC_RR SpecRR n=4 rounds={rounds} cfg={c}", res)
+def rr4_feasible_set(rep: Report, rounds: int, c: dict, fixed: bool = False) -> set:
+    res = tlc.run("ttp/MC_RR", cfg_text=_rr4_cfg(rounds, c, fixed), workers=16, timeout=6000, heap="12g")
+    rep.add_mc(f"MC_RR SpecRR n=4 rounds={rounds} cfg={c}" + (" (first day fixed)" if fixed else ""), res)
     return {tuple(map(tuple, v[1])) for v in res.tagged("F")}
+
+
+def relabel_closure(plans: set) -> set:
+    """All images of the plans under renaming the four teams (the constraints do not depend on team names, and
+    every consistent first day is the image of <<2,-1,4,-3>> under some renaming)."""
+    import itertools as _it
+    out = set()
+    for pi in _it.permutations(range(4)):
+        inv = [0] * 4
+        for a, b in enumerate(pi):
+            inv[b] = a
+        for p in plans:
+            q = []
+            for day in p:
+                nd = [0] * 4
+                for t in range(4):
+                    v = day[t]
+                    o = abs(v) - 1
+                    nd[pi[t]] = (pi[o] + 1) * (1 if v > 0 else -1)
+                q.append(tuple(nd))
+            out.add(tuple(q))
+    return out
 
 
 def run(prop: str, tier: str, seed: int) -> int:
